@@ -92,7 +92,7 @@ def main():
         "checks": checks,
         "not_applicable": na,
         "notes": "Repairs of genuine defects committed to /repo (unguarded `fix:` commits, suite unchanged at 224 "
-                 "passes): b170f9d 6a633f2 4769a9b 31550e4 8f80462 2635c31 ccba892 b9e354e d830fd5 0d4c7d6 df63969 4029b31 62b1e9f 138f88e 11cc740 d38eeb7 0d8222b bbaf227 09362f1 26932d5 b73edda 2c9cc95 774ab53 e1754b1 da85507 4e41602 1aae36e 8a2c0d8 6c1d807 94e3b86 e6098f7 b6ac91d 2f9ad84 19a4777 1ceeafc b88e6d3 b6a3946 c160e18 ddc5b49 8d1a688 4d0943e. "
+                 "passes): b170f9d 6a633f2 4769a9b 31550e4 8f80462 2635c31 ccba892 b9e354e d830fd5 0d4c7d6 df63969 4029b31 62b1e9f 138f88e 11cc740 d38eeb7 0d8222b bbaf227 09362f1 26932d5 b73edda 2c9cc95 774ab53 e1754b1 da85507 4e41602 1aae36e 8a2c0d8 6c1d807 94e3b86 e6098f7 b6ac91d 2f9ad84 19a4777 1ceeafc b88e6d3 b6a3946 c160e18 ddc5b49 8d1a688 4d0943e f6d2e86 a9db1a4 05063a0. "
                  "All checks are static (no adblock code is executed by a deciding step). "
                  "Known findings: known_findings.txt. Seeded changes: seeded/.",
     }
